@@ -352,6 +352,23 @@ class TopoModel(Model):
                 ev.append(('rename', ('service', 's1'), 's2'))
             ev.append(('setprop', ('service', 's1'), 'labels', 1))
             ev.append(('unsetprop', ('service', 's1'), 'labels'))
+        if exp and 'c08' in self.oracles:
+            # ExperimentTopology.prune: mark elements as failed, then prune that state
+            marks = []
+            if 'n1' in names:
+                marks.append((('node', 'n1'),))
+                comps1 = sorted(nodes['n1'].components.keys()) if nodes['n1'].type != NodeType.Facility else []
+                for c in comps1[:1]:
+                    marks.append((('component', 'n1', c),))
+                ports1 = [i for nn, i in self.ports() if nn == 'n1' and i.type in (InterfaceType.DedicatedPort, InterfaceType.SharedPort)]
+                for i in ports1[:1]:
+                    marks.append((('port', 'n1', i.name),))
+            for sname in tops[:1]:
+                marks.append((('service', sname),))
+                if 'n2' in names:
+                    marks.append((('node', 'n2'), ('service', sname)))
+            for m in marks:
+                ev.append(('prune', m))
         if not exp:
             ev += self._substrate_events(raw, nodes, free)
         return ev
@@ -478,6 +495,19 @@ class TopoModel(Model):
             self.handles['port'] = p
         elif k == 'remove_node':
             t.remove_node(ev[1])
+        elif k == 'prune':
+            from fim.slivers.capacities_labels import ReservationInfo
+            for m in ev[1]:
+                if m[0] == 'node':
+                    e = self.node(m[1])
+                elif m[0] == 'component':
+                    e = self.node(m[1]).components[m[2]]
+                elif m[0] == 'port':
+                    e = self.port(m[1], m[2])
+                else:
+                    e = self.service(m[1])
+                e.set_property('reservation_info', ReservationInfo(reservation_state='Failed'))
+            t.prune(reservation_state='Failed')
         elif k == 'remove_facility':
             t.remove_facility(name=ev[1])
         elif k == 'remove_switch':
@@ -736,7 +766,7 @@ def c07_views(model: TopoModel, raw: Raw, scopes_ok):
 
 # ================================================================================================ C08 oracles
 REMOVALS = {'remove_node', 'remove_facility', 'remove_switch', 'remove_component', 'remove_service', 'disconnect', 'unpeer',
-            'remove_sub', 'sub_remove_link', 'sub_remove_ns_interface', 'sub_remove_node_service'}
+            'remove_sub', 'prune', 'sub_remove_link', 'sub_remove_ns_interface', 'sub_remove_node_service'}
 
 
 def _find(pre: Raw, cls, name, within=None):
@@ -806,6 +836,20 @@ def c08_targets(pre: Raw, ev):
         if len(pairs) > 1:
             return ('unspecified', 'services peer more than once')
         T = set(pairs[0])
+    elif k == 'prune':
+        for m in ev[1]:
+            if m[0] == 'node':
+                x = _find(pre, NN, m[1])
+            elif m[0] == 'component':
+                n = _find(pre, NN, m[1])
+                x = _find(pre, COMP, m[2], pre.nb(n, 'has', COMP)) if n else None
+            elif m[0] == 'port':
+                x = _port_id(pre, (m[1], m[2]))
+            else:
+                x = _find(pre, NS, m[1], [y for y in pre.by_class(NS) if not pre.owner(y)])
+            if x is None:
+                return ('unspecified', 'ambiguous')
+            T |= {x} | pre.owned(x)
     elif k == 'remove_sub':
         port = _port_id(pre, ev[1])
         sub = _find(pre, CP, ev[2], pre.nb(port, 'connects', CP)) if port else None
